@@ -40,42 +40,29 @@ theorem decode_encode_eff (d : Nat) (fs : List Fmt) (tsh : List Nat) (ish : Opti
   · intro x hx; rw [List.eq_of_mem_replicate hx]; rfl
 
 
-/-- the same statement for the decoder's natural input, the *declared* shape (the imposed one
-    if there is one, else the tensor's) — PARTIAL: `hlay` excludes the class in which some U or
-    B rank was laid out with another extent than the declared one (this happens exactly below a
-    B rank when the imposed extent differs from the tensor's: finding
-    `decode:B-rank-drops-imposed-shape`). -/
-theorem decode_encode_partial (d : Nat) (fs : List Fmt) (tsh : List Nat) (ish : Option (List Nat))
+/-- Decoding under the *declared* shape — the imposed one if there is one, else the tensor's —
+    for every descriptor: every format forwards the imposed shape, so every rank is laid out
+    with the declared extent and the arrays decode to exactly the tensor's content. -/
+theorem decode_encode (d : Nat) (fs : List Fmt) (tsh : List Nat) (ish : Option (List Nat))
     (t : List (Int × Tree Int Int d))
-    (hfs : fs.length = d + 1) (hwf : wfB (κ := Int) (ν := Int) (d + 1) t = true)
-    (hin : inShape (d + 1) tsh t = true) (hish : IshOK ish tsh)
-    (hlay : agreeNonC fs (effShape fs tsh ish) (declShape tsh ish) = true) :
+    (hfs : fs.length = d + 1) (htsh : tsh.length = d + 1) (hwf : wfB (κ := Int) (ν := Int) (d + 1) t = true)
+    (hin : inShape (d + 1) tsh t = true) (hish : IshOK ish tsh) :
     decodesTo d fs (declShape tsh ish) (encode d fs tsh ish t).root (encode d fs tsh ish t).cs
       (encode d fs tsh ish t).ps (content (κ := Int) (ν := Int) (0 : Int) (d + 1) t) = true := by
   have h := decode_encode_eff d fs tsh ish t hfs hwf (inEff_of_inShape (d + 1) fs tsh ish t hin hish)
-  unfold decodesTo at h ⊢
-  rw [← decF_agree d fs _ _ hlay hfs]
-  exact h
+  rwa [cd_effShape_decl fs tsh ish (by rw [htsh, hfs]) hish] at h
 
-/-- without an imposed shape nothing is excluded: every descriptor, every tensor -/
+/-- in particular without an imposed shape, under the tensor's own shape -/
 theorem decode_encode_noshape (d : Nat) (fs : List Fmt) (tsh : List Nat) (t : List (Int × Tree Int Int d))
     (hfs : fs.length = d + 1) (htsh : tsh.length = d + 1) (hwf : wfB (κ := Int) (ν := Int) (d + 1) t = true)
     (hin : inShape (d + 1) tsh t = true) :
     decodesTo d fs tsh (encode d fs tsh none t).root (encode d fs tsh none t).cs
-      (encode d fs tsh none t).ps (content (κ := Int) (ν := Int) (0 : Int) (d + 1) t) = true := by
-  have h := decode_encode_eff d fs tsh none t hfs hwf (inEff_of_inShape (d + 1) fs tsh none t hin trivial)
-  rwa [effShape_none fs tsh (by rw [htsh, hfs])] at h
+      (encode d fs tsh none t).ps (content (κ := Int) (ν := Int) (0 : Int) (d + 1) t) = true :=
+  decode_encode d fs tsh none t hfs htsh hwf hin trivial
 
 /-- the 2-rank tensor {(0,1) ↦ 5, (1,1) ↦ 5} -/
 def witnessT : List (Int × Tree Int Int 1) :=
   [(0, (show Tree Int Int 1 from [((1 : Int), (5 : Int))])), (1, (show Tree Int Int 1 from [((1 : Int), (5 : Int))]))]
-
-/-- … and the excluded class is real: descriptor (B, U), tensor shape [2,2], imposed shape [3,3] —
-    the arrays do not decode under the imposed shape. -/
-theorem decode_imposed_shape_counterexample :
-    decodesTo 1 [.B, .U] (declShape [2, 2] (some [3, 3])) (encode 1 [.B, .U] [2, 2] (some [3, 3]) witnessT).root
-      (encode 1 [.B, .U] [2, 2] (some [3, 3]) witnessT).cs (encode 1 [.B, .U] [2, 2] (some [3, 3]) witnessT).ps
-      (content (κ := Int) (ν := Int) (0 : Int) 2 witnessT) = false := by decide
 
 -- non-vacuity: the hypotheses are satisfiable by non-trivial values (all three formats, an empty
 -- sub-fiber, an explicit zero, an imposed shape larger than the tensor's)
@@ -92,8 +79,13 @@ example : decodesTo 2 [.C, .B, .U] (effShape [.C, .B, .U] [3, 3, 3] (some [4, 3,
   decode_encode_eff 2 [.C, .B, .U] [3, 3, 3] (some [4, 3, 5]) sampleT (by decide) (by decide) (by decide)
 
 example :=
-  decode_encode_partial 2 [.U, .C, .B] [3, 3, 3] (some [4, 3, 5]) sampleT (by decide) (by decide) (by decide)
-    (by show shapeGe _ _ = true; decide) (by decide)
+  decode_encode 2 [.B, .U, .B] [3, 3, 3] (some [4, 3, 5]) sampleT (by decide) (by decide) (by decide) (by decide)
+    (by show shapeGe _ _ = true; decide)
+
+-- the former counterexample (descriptor (B, U), tensor shape [2,2], imposed shape [3,3]) now decodes
+example : decodesTo 1 [.B, .U] [3, 3] (encode 1 [.B, .U] [2, 2] (some [3, 3]) witnessT).root
+    (encode 1 [.B, .U] [2, 2] (some [3, 3]) witnessT).cs (encode 1 [.B, .U] [2, 2] (some [3, 3]) witnessT).ps
+    (content (κ := Int) (ν := Int) (0 : Int) 2 witnessT) = true := by decide
 
 example :=
   decode_encode_noshape 2 [.B, .U, .C] [3, 3, 3] sampleT (by decide) (by decide) (by decide) (by decide)
